@@ -1,5 +1,6 @@
 import Holpy.C15.Model
 import Holpy.C15.Proofs.Analyze
+import Holpy.C15.Proofs.NoCrash
 namespace Holpy.C15
 
 /-! ### replaying in a longer clause list -/
